@@ -102,7 +102,9 @@ def dc_worker(_):
             dec[_dc_atom(k)] = v
         stores = [(e[2], e[5], tuple(e[6] or ())) for e in o.state.trace if e[0] == "W" and not str(e[2]).startswith("memo")]   # memo[id(self)] = new is bookkeeping
         copies = [e[1] for e in o.state.trace if e[0] == "CP"]
-        rows.append({"kind": o.kind, "ret": vrepr(o.value) if o.kind == "ok" else o.value.cls,
+        entered = any(".items()" in repr(k) or "__dict__" in repr(k) and "[]" in repr(k) for k, v in o.state.decisions) or bool(stores) \
+            or any(".items()" in str(e) for e in o.state.trace)
+        rows.append({"kind": o.kind, "entered": entered, "ret": vrepr(o.value) if o.kind == "ok" else o.value.cls,
                      "ret_prov": sorted(o.value.prov) if isinstance(o.value, Sym) else [],
                      "dec": {k: v for k, v in dec.items() if k}, "stores": stores, "copies": copies,
                      "imm": sorted(immutable_reprs(o.state.facts)),
@@ -258,9 +260,8 @@ def _check_main(ctx, rep: Report):
                 seen_copy = True
         if d.get("ismethod") and d.get("bound_to_self") and not row["stores"]:
             seen_skip = True
-        if not row["stores"] and not (d.get("ismethod") and d.get("bound_to_self")) and \
-                any(k in d for k in ("attr_do_not_copy", "ismethod")):
-            bad.append(f"__dict__ entry dropped from the copy (decisions {d})")
+        if not row["stores"] and (row.get("entered") or any(k in d for k in ("attr_do_not_copy", "ismethod", "attr_spec_found"))):
+            bad.append(f"__dict__ entry dropped from the copy (decisions {d or 'of the skipped entry'})")
     rep.sample({"entry": "DeepCopyMethod.deepcopy", "rows": r["rows"][:4]})
     if not (seen_copy and seen_ident):
         raise AnalysisError(f"C02.DC: decision table incomplete (copy row {seen_copy}, identity row {seen_ident})")
